@@ -39,6 +39,28 @@ instance (f : Fields) : Decidable (InDocumentedRange f) := by
 /-- Rounding to the 2-second DOS resolution. -/
 def round2s (f : Fields) : Fields := { f with second := 2 * (f.second / 2) }
 
+/-! ### The calendar rule (Gregorian; ISO 8601 / RFC 3339 appendix C), written out here and NOT taken
+from the `time` crate: `Date::from_calendar_date` is compared with it on every (year, month) of the DOS
+range by the `dos.dim` correspondence op (1536 cases, both tiers). -/
+
+/-- Leap years: divisible by 4, except centuries not divisible by 400 (2000 is, 2100 is not). -/
+def isLeap (y : Int) : Bool := (y % 4 == 0) && ((y % 100 != 0) || (y % 400 == 0))
+
+/-- Days of month `m` (1..12; anything else has none) in year `y`. -/
+def daysInMonth (y : Int) (m : Nat) : Nat :=
+  match m with
+  | 1 | 3 | 5 | 7 | 8 | 10 | 12 => 31
+  | 4 | 6 | 9 | 11 => 30
+  | 2 => if isLeap y then 29 else 28
+  | _ => 0
+
+theorem daysInMonth_le (y : Int) (m : Nat) : daysInMonth y m ≤ 31 := by
+  unfold daysInMonth; split <;> (try split) <;> omega
+
+example : daysInMonth 2000 2 = 29 ∧ daysInMonth 2100 2 = 28 ∧ daysInMonth 2024 2 = 29 ∧
+    daysInMonth 2023 2 = 28 ∧ daysInMonth 2021 4 = 30 ∧ daysInMonth 1980 0 = 0 ∧
+    daysInMonth 2107 13 = 0 := by decide
+
 theorem unpack_pack (d t : Nat) (hd : d < 65536) (_ht : t < 65536) :
     packDate (unpack d t) = d ∧ packTime (unpack d t) = t := by
   show d % 32 + 32 * (d / 32 % 16) + 512 * (1980 + d / 512 - 1980) = d ∧
